@@ -271,21 +271,44 @@ def classIntro (cx : Ctx) (cname : Str) (vc : VramClass) : List Line :=
      | none => linkerSym s (.hex8 0) :: vc.followsClasses.map (fun other => maxSelf s (st.classEnd other)))
   ++ [linkerSym (st.classEnd cname) (.hex8 0), .blank]
 
+/-- the vram-class prologue of `add_segment`: error for an undeclared class, the class symbols
+before the first emitted member, nothing otherwise. -/
+def classPart (cx : Ctx) (emitted : List Str) (seg : Segment) : R (List Line × List Str) :=
+  match seg.vramClass with
+  | none => .ok ([], emitted)
+  | some cname =>
+    match findClass cx.d cname with
+    | none => .error (.err .missingVramClassForSegment)
+    | some vc =>
+      if cname ∈ emitted then .ok ([], emitted)
+      else .ok (classIntro cx cname vc, emitted ++ [cname])
+
+/-- everything `add_segment` writes for an emitted segment, given its class prologue and its
+two output sections. -/
+def segmentLines (cx : Ctx) (seg : Segment) (cls alloc noload : List Line) : List Line :=
+  cls
+  ++ (match seg.segmentStartAlign with
+      | some a => [alignSymbol c!"__romPos" a, alignSymbol c!"." a] | none => [])
+  ++ [linkerSym (cx.d.settings.style.segRomStart seg.name) (.sym c!"__romPos"),
+      linkerSym (cx.d.settings.style.segVramStart seg.name) (.addr (c!"." ++ seg.name))]
+  ++ alloc ++ [.blank] ++ noload ++ [.blank]
+  ++ [.addAssign c!"__romPos" (.sizeofE (c!"." ++ seg.name))]
+  ++ (match seg.segmentEndAlign with
+      | some a => [alignSymbol c!"__romPos" a, alignSymbol c!"." a] | none => [])
+  ++ symEndSize (cx.d.settings.style.segVramStart seg.name) (cx.d.settings.style.segVramEnd seg.name)
+      (cx.d.settings.style.segVramSize seg.name) .dot
+  ++ symEndSize (cx.d.settings.style.segRomStart seg.name) (cx.d.settings.style.segRomEnd seg.name)
+      (cx.d.settings.style.segRomSize seg.name) (.sym c!"__romPos")
+  ++ (match seg.vramClass with
+      | some cname => [.blank, maxSelf (cx.d.settings.style.classEnd cname) (cx.d.settings.style.segVramEnd seg.name)]
+      | none => [])
+  ++ [.blank]
+
 /-- `add_segment`: returns the lines and the updated list of emitted classes. -/
 def addSegment (cx : Ctx) (emitted : List Str) (seg : Segment) : R (List Line × List Str) :=
   if !shouldEmit cx.o seg.cond then .ok ([], emitted)
   else
-    let st := cx.d.settings.style
-    let classPart : R (List Line × List Str) :=
-      match seg.vramClass with
-      | none => .ok ([], emitted)
-      | some cname =>
-        match findClass cx.d cname with
-        | none => .error (.err .missingVramClassForSegment)
-        | some vc =>
-          if cname ∈ emitted then .ok ([], emitted)
-          else .ok (classIntro cx cname vc, emitted ++ [cname])
-    match classPart with
+    match classPart cx emitted seg with
     | .error e => .error e
     | .ok (cls, emitted') =>
       match writeSegment cx seg seg.allocSections false with
@@ -293,22 +316,7 @@ def addSegment (cx : Ctx) (emitted : List Str) (seg : Segment) : R (List Line ×
       | .ok alloc =>
         match writeSegment cx seg seg.noloadSections true with
         | .error e => .error e
-        | .ok noload =>
-          .ok (cls
-            ++ (match seg.segmentStartAlign with
-                | some a => [alignSymbol c!"__romPos" a, alignSymbol c!"." a] | none => [])
-            ++ [linkerSym (st.segRomStart seg.name) (.sym c!"__romPos"),
-                linkerSym (st.segVramStart seg.name) (.addr (c!"." ++ seg.name))]
-            ++ alloc ++ [.blank] ++ noload ++ [.blank]
-            ++ [.addAssign c!"__romPos" (.sizeofE (c!"." ++ seg.name))]
-            ++ (match seg.segmentEndAlign with
-                | some a => [alignSymbol c!"__romPos" a, alignSymbol c!"." a] | none => [])
-            ++ symEndSize (st.segVramStart seg.name) (st.segVramEnd seg.name) (st.segVramSize seg.name) .dot
-            ++ symEndSize (st.segRomStart seg.name) (st.segRomEnd seg.name) (st.segRomSize seg.name) (.sym c!"__romPos")
-            ++ (match seg.vramClass with
-                | some cname => [.blank, maxSelf (st.classEnd cname) (st.segVramEnd seg.name)]
-                | none => [])
-            ++ [.blank], emitted')
+        | .ok noload => .ok (segmentLines cx seg cls alloc noload, emitted')
 
 /-- `begin_sections`. -/
 def beginSections (cx : Ctx) : List Line :=
